@@ -45,6 +45,13 @@ def run(ctx: Ctx, rep: Report) -> None:
     n = copy_ctor(ctx, rep)
     rep.floor('FIELDS', n, 7, 'copy-constructor fields')
     ctor(ctx, rep)
+    # connected-subset enumeration grows from every member of the set
+    from .graph_search import grow
+    grow(ctx, rep)
+    # UnitaryBuilder (an anchor of C20 too): the in-place and the evaluating
+    # contraction are the same expressions (shared with C06)
+    from .C06 import clone_rule
+    clone_rule(ctx, rep)
 
 
 def sym(ctx: Ctx, rep: Report) -> None:
